@@ -276,6 +276,9 @@ func identity(run *ev.Run, unit int64, r *rand.Rand) {
 		run.Inconclusive("generated YAML does not load: " + err.Error())
 		return
 	}
+	if unit%3 == 0 {
+		emptyOrigin(run, unit, r, u)
+	}
 	m, err := cfg.AsLogMap()
 	if err != nil {
 		run.Violate("aslogmap_refuses_distinct_origins", "AsLogMap refused a configuration without duplicates: "+err.Error(), unit, map[string]any{"yaml": string(yamlFor(u.Logs))})
@@ -393,6 +396,57 @@ func identity(run *ev.Run, unit int64, r *rand.Rand) {
 			run.Sample(map[string]any{"part": "identity", "origin": l.Origin, "ids": ids})
 		}
 	}
+}
+
+// emptyOrigin: a configuration entry whose Origin is omitted or empty, next to an entry whose origin is
+// the first entry's key name. No checkpoint can ever be accepted for an empty origin, so only the
+// configuration level is observed: if both the witness map and the component descriptor are built, the
+// descriptor's ID must be a key of the witness map, filed with the same origin; and descriptors of one
+// accepted configuration never share an ID.
+func emptyOrigin(run *ev.Run, unit int64, r *rand.Rand, u *gen.Universe) {
+	a, b := u.Logs[0], u.Logs[1]
+	name := strings.SplitN(a.Key.Vkey(), "+", 2)[0]
+	ka, _ := json.Marshal(a.Key.Vkey())
+	kb, _ := json.Marshal(b.Key.Vkey())
+	no, _ := json.Marshal(name)
+	first := fmt.Sprintf("  - URL: \"http://log.invalid/a/\"\n    PublicKey: %s\n    Feeder: none\n", ka)
+	if r.IntN(2) == 0 {
+		first = fmt.Sprintf("  - Origin: \"\"\n    URL: \"http://log.invalid/a/\"\n    PublicKey: %s\n    Feeder: none\n", ka)
+	}
+	y := "Logs:\n" + first + fmt.Sprintf("  - Origin: %s\n    URL: \"http://log.invalid/b/\"\n    PublicKey: %s\n    Feeder: none\n", no, kb)
+	var cfg omniwitness.LogConfig
+	if err := yaml.Unmarshal([]byte(y), &cfg); err != nil {
+		run.Count("empty_origin_config_refused")
+		return
+	}
+	m, err := cfg.AsLogMap()
+	if err != nil {
+		run.Count("empty_origin_config_refused")
+		return
+	}
+	seen := map[string]string{}
+	for _, li := range cfg.Logs {
+		cl, err := config.NewLog(li.Origin, li.PublicKey, li.URL)
+		if err != nil {
+			run.Count("empty_origin_config_refused")
+			return
+		}
+		run.Count("evaluations")
+		run.Count("empty_origin_entries_observed")
+		d := map[string]any{"yaml": y, "configured_origin": li.Origin, "descriptor_id": cl.ID, "descriptor_origin": cl.Origin}
+		info, ok := m[cl.ID]
+		switch {
+		case !ok:
+			run.Violate("identity_mismatch;at=config.NewLog;origin=empty_or_keyname", fmt.Sprintf("configured origin %q: feeders/bastion/distributor use ID %q, under which the witness map has no entry", li.Origin, cl.ID), unit, d)
+		case info.Origin != cl.Origin:
+			run.Violate("identity_mismatch;origin_differs;origin=empty_or_keyname", fmt.Sprintf("ID %q: the witness expects origin %q, the components' descriptor says %q", cl.ID, info.Origin, cl.Origin), unit, d)
+		}
+		if prev, dup := seen[cl.ID]; dup {
+			run.Violate("accepted_config_shares_id", fmt.Sprintf("an accepted configuration gives the entries with origins %q and %q the same component ID %q", prev, li.Origin, cl.ID), unit, d)
+		}
+		seen[cl.ID] = li.Origin
+	}
+	run.Distinct("nontrivial", "id/empty_origin")
 }
 
 type countingListener struct {
